@@ -48,8 +48,14 @@ def validateSeq (rd : Nat → B) (avail : Nat) : BitVec 32 :=
 
 /-! ## utf8_get_char -/
 
+/-- `-(int)c` for a byte `c`: the bit pattern of `2^32 - c`.  Evaluated in `UInt32` machine
+arithmetic, because `BitVec.neg` computes `2^32` with bignum arithmetic on every call and that
+dominated the enumeration of all 2^32 windows; `UsualProofs.C11.negByte_eq` (all 256 bytes,
+kernel-checked) shows it is `-(z c)`. -/
+@[inline] def negByte (c : B) : BitVec 32 := (0 - c.toNat.toUInt32).toBitVec
+
 /-- result on ill-formed / truncated input: negated lead byte, one byte consumed -/
-@[inline] def bad (b0 : B) : BitVec 32 × Nat := (-(z b0), 1)
+@[inline] def bad (b0 : B) : BitVec 32 × Nat := (negByte b0, 1)
 
 /-- the value the decoder assembles from a 2/3/4 byte sequence -/
 @[inline] def dec2 (b0 b1 : B) : BitVec 32 := z b0 % 32#32 * 64#32 + z b1 % 64#32
